@@ -1,1 +1,141 @@
-/-! C10 — property theorems (placeholder until the model exists). -/
+import EupsModel.Lemmas.VersionCmp
+/-! C10 — version names are ordered consistently: property theorems.
+
+`stdCompare strict a b` is the model of `hooks.version_cmp(a, b, mustReturnInt = !strict)`
+(`Model/VersionCmp.lean`); a name is *accepted* when `lex` succeeds on it (the only way it does not is
+the `AttributeError` of `_splitVersion` on a name that starts with `-` or `+`). -/
+namespace EupsModel.C10
+open EupsModel EupsModel.VersionCmp
+
+/-! names used in the examples and witnesses, as code points (`#guard` checks the spelling) -/
+def n_1d2mrc1p3 : Str := [49, 46, 50, 45, 114, 99, 49, 43, 51]   -- 1.2-rc1+3
+#guard Str.toString n_1d2mrc1p3 == "1.2-rc1+3"
+def n_1d2 : Str := [49, 46, 50]   -- 1.2
+#guard Str.toString n_1d2 == "1.2"
+def n_rc1 : Str := [114, 99, 49]   -- rc1
+#guard Str.toString n_rc1 == "rc1"
+def n_3 : Str := [51]   -- 3
+#guard Str.toString n_3 == "3"
+def n_1d10 : Str := [49, 46, 49, 48]   -- 1.10
+#guard Str.toString n_1d10 == "1.10"
+def n_1d9 : Str := [49, 46, 57]   -- 1.9
+#guard Str.toString n_1d9 == "1.9"
+def n_v1 : Str := [118, 49]   -- v1
+#guard Str.toString n_v1 == "v1"
+def n_w1 : Str := [119, 49]   -- w1
+#guard Str.toString n_w1 == "w1"
+def n_m1 : Str := [45, 49]   -- -1
+#guard Str.toString n_m1 == "-1"
+def n_1 : Str := [49]   -- 1
+#guard Str.toString n_1 == "1"
+def n_v1d0 : Str := [118, 49, 46, 48]   -- v1.0
+#guard Str.toString n_v1d0 == "v1.0"
+def n_v1u0mrc1 : Str := [118, 49, 95, 48, 45, 114, 99, 49]   -- v1_0-rc1
+#guard Str.toString n_v1u0mrc1 == "v1_0-rc1"
+def n_v1d0mrc1 : Str := [118, 49, 46, 48, 45, 114, 99, 49]   -- v1.0-rc1
+#guard Str.toString n_v1d0mrc1 == "v1.0-rc1"
+def n_01mrc02p1 : Str := [48, 49, 45, 114, 99, 48, 50, 43, 49]   -- 01-rc02+1
+#guard Str.toString n_01mrc02p1 == "01-rc02+1"
+def n_1mrc02p1 : Str := [49, 45, 114, 99, 48, 50, 43, 49]   -- 1-rc02+1
+#guard Str.toString n_1mrc02p1 == "1-rc02+1"
+def n_2 : Str := [50]   -- 2
+#guard Str.toString n_2 == "2"
+def n_10 : Str := [49, 48]   -- 10
+#guard Str.toString n_10 == "10"
+def n_1a : Str := [49, 97]   -- 1a
+#guard Str.toString n_1a == "1a"
+
+/-! ## reflexivity and antisymmetry: every accepted name, both modes -/
+
+/-- A name the comparator accepts compares equal to itself, in the sorting and in the strict mode. -/
+theorem C10_refl (strict : Bool) (a : Str) (la : Lexed) (h : lex a = .ok la) :
+    stdCompare strict a a = .ok 0 := by
+  cases strict <;> simp [stdCompare, h, cmpLexed, cmpSort_self, cmpStrict_self]
+
+/-- Sorting mode (`mustReturnInt=True`): it answers for every pair of accepted names … -/
+theorem C10_sort_total (a b : Str) (la lb : Lexed) (ha : lex a = .ok la) (hb : lex b = .ok lb) :
+    ∃ r, stdCompare false a b = .ok r := by
+  exact ⟨cmpSort la lb, by simp [stdCompare, ha, hb, cmpLexed]⟩
+
+/-- … and swapping the arguments negates the answer, for every pair of names whatsoever. -/
+theorem C10_antisym (a b : Str) (r : Int) (h : stdCompare false a b = .ok r) :
+    stdCompare false b a = .ok (-r) := by
+  simp only [stdCompare] at h ⊢
+  cases ha : lex a with
+  | error e => simp [ha] at h
+  | ok la =>
+    cases hb : lex b with
+    | error e => simp [ha, hb] at h
+    | ok lb =>
+      simp only [ha, hb, cmpLexed, Bool.false_eq_true, if_false, Except.ok.injEq] at h ⊢
+      rw [← h, cmpSort_antisym la lb]; omega
+
+/-- Strict mode (`mustReturnInt=False`, the mode of relational expressions): an answer is negated by
+swapping the arguments … -/
+theorem C10_antisym_strict (a b : Str) (r : Int) (h : stdCompare true a b = .ok r) :
+    stdCompare true b a = .ok (-r) := by
+  simp only [stdCompare] at h ⊢
+  cases ha : lex a with
+  | error e => simp [ha] at h
+  | ok la =>
+    cases hb : lex b with
+    | error e => simp [ha, hb] at h
+    | ok lb =>
+      simp only [ha, hb, cmpLexed, if_true] at h ⊢
+      rw [cmpStrict_symm la lb, h]
+
+/-- … and "cannot be sorted" does not depend on the order of the arguments (accepted names). -/
+theorem C10_unsortable_symm (a b : Str) (la lb : Lexed) (ha : lex a = .ok la) (hb : lex b = .ok lb) (e : Err)
+    (h : stdCompare true a b = .error e) : stdCompare true b a = .error e := by
+  simp only [stdCompare, ha, hb, cmpLexed, if_true] at h ⊢
+  rw [cmpStrict_symm la lb, h]
+
+/-- The two modes never contradict each other: when the strict mode answers, the sorting mode gives
+the same answer. -/
+theorem C10_strict_agrees_with_sort (a b : Str) (r : Int) (h : stdCompare true a b = .ok r) :
+    stdCompare false a b = .ok r := by
+  simp only [stdCompare] at h ⊢
+  cases ha : lex a with
+  | error e => simp [ha] at h
+  | ok la =>
+    cases hb : lex b with
+    | error e => simp [ha, hb] at h
+    | ok lb =>
+      simp only [ha, hb, cmpLexed, if_true, Bool.false_eq_true, if_false, Except.ok.injEq] at h ⊢
+      exact cmpStrict_agrees h
+
+/-! non-vacuity: accepted names, a strict answer, a strict refusal -/
+example : lex n_1d2mrc1p3 = .ok (.node n_1d2 (.node n_rc1 .absent .absent) (.node n_3 .absent .absent)) := by decide
+example : stdCompare true n_1d10 n_1d9 = .ok 1 := by decide
+example : stdCompare true n_v1 n_w1 = .error .unsortable := by decide
+example : stdCompare false n_m1 n_1 = .error .malformed := by decide
+
+/-! ## witnesses -/
+
+/-- D5, the pinned comparator: the primary parts were tested for *string* equality before the component
+loop, so `v1.0 == v1_0-rc1` and `v1_0-rc1 == v1.0-rc1` while `v1.0 > v1.0-rc1`: not transitive on
+conventional names that mix `.` and `_` (repaired by `fix-g10` 4be966e; the repaired comparator orders them). -/
+theorem C10_mixed_separator_witness :
+    stdComparePinned false n_v1d0 n_v1u0mrc1 = .ok 0 ∧
+    stdComparePinned false n_v1u0mrc1 n_v1d0mrc1 = .ok 0 ∧
+    stdComparePinned false n_v1d0 n_v1d0mrc1 = .ok 1 ∧
+    stdCompare false n_v1d0 n_v1u0mrc1 = .ok 1 ∧
+    stdCompare false n_v1u0mrc1 n_v1d0mrc1 = .ok 0 := by decide
+
+/-- D5 again, through leading zeros: `1 == 01-rc02+1 == 1-rc02+1 < 1` on the pinned comparator. -/
+theorem C10_leading_zero_witness :
+    stdComparePinned false n_1 n_01mrc02p1 = .ok 0 ∧
+    stdComparePinned false n_01mrc02p1 n_1mrc02p1 = .ok 0 ∧
+    stdComparePinned false n_1mrc02p1 n_1 = .ok (-1) ∧
+    stdCompare false n_1 n_01mrc02p1 = .ok 1 := by decide
+
+/-- Outside the conventional names the sorting mode is not transitive: `2 < 10 < 1a < 2`
+(numbers compare numerically, `1a` compares as a string).  Recorded; the statement claims
+transitivity for conventional names only.  The strict mode refuses `10` vs `1a`. -/
+theorem C10_arbitrary_cycle_witness :
+    stdCompare false n_2 n_10 = .ok (-1) ∧
+    stdCompare false n_10 n_1a = .ok (-1) ∧
+    stdCompare false n_1a n_2 = .ok (-1) ∧
+    stdCompare true n_10 n_1a = .error .unsortable := by decide
+
+end EupsModel.C10
